@@ -73,6 +73,36 @@ def run(chk):
             al = [cs.single3(slot, "t3", (p[0], p[1], TOP - d), d) for p in pts]
             ages = [ridge_distance_cart(ridges, p) / (m["spreading velocity"] / SEC_YEAR) for p in pts]
             plan.append(("age", al, ages, w, m, d, kappa, md))
+    # (b') spherical plates across the +-180 meridian, spreading velocity varying along the ridge: the age ladder walks along
+    # a parallel from the ridge across the meridian (the nearest ridge point is found through the longitude alias there)
+    from wbgen import cart_point
+    for wi in range(6 if quick else 60):
+        kind = rng.choice(["half space model", "plate model"])
+        kappa = 0.804e-6
+        md = float(round(rng.uniform(8e4, 2.0e5)))
+        Tt = g.num(250, 400, 1)
+        Tb = Tt + g.num(300, 1500, 1)
+        lon_r = rng.choice([176.0, 178.5, -178.0, 181.0, -183.5])
+        base = 180.0 if lon_r > 0 else -180.0
+        ridge = [[lon_r, -20.0], [lon_r, round(rng.uniform(-5, 5), 1)], [lon_r, 20.0]]      # along a meridian: the ladder never crosses it
+        if rng.random() < 0.5:
+            ridge = ridge[::-1]
+        vels = [g.num(0.01, 0.12, 4) for _ in ridge]
+        m = {"model": kind, "max depth": md, "top temperature": Tt, "bottom temperature": Tb, "ridge coordinates": [ridge],
+             "spreading velocity": [[0.0, [vels]]]}
+        f = {"model": "oceanic plate", "name": "o", "coordinates": [[base - 35, -40], [base + 35, -40], [base + 35, 40], [base - 35, 40]],
+             "max depth": md, "temperature models": [m]}
+        w = {"version": "1.1", "thermal diffusivity": kappa, "coordinate system": {"model": "spherical", "depth method": "begin segment"},
+             "features": [f]}
+        slot = cs.add_world(w)
+        lat = round(rng.uniform(-15, 15), 2)
+        d = float(round(rng.uniform(0.05, 0.9) * md))
+        for sgn in (1.0, -1.0):
+            steps = [10 ** (-2 + 3.4 * i / 30.0) for i in range(31)]       # 0.01 .. 25 degrees
+            al = [cs.single3(slot, "t3", cart_point(True, lon_r + sgn * st, lat, d, 6371000.0, TOP), d) for st in steps]
+            vmid = sum(vels) / len(vels) / SEC_YEAR
+            ages = [6371000.0 * math.cos(math.radians(lat)) * math.radians(st) / vmid for st in steps]
+            plan.append(("age", al, ages, w, m, d, kappa, md))
     # (d) slab temperature models (mass conserving, slab plate model): between the surface temperature and the background
     # adiabat (computed with the model's own expansivity / specific heat where it sets them); not modelled in Gallina: oracle only
     from worlds import line_world
